@@ -163,7 +163,8 @@ static void img_read(long long off, void *buf, long long n) {
 #define IO_STUB(name, KIND, is_write, has_off)                                                                   \
     e = vt_push(KIND, fh, has_off ? (long long)off : -1, count, dt, buf);                                        \
     b = nbytes(count, dt); e->val = b; rc = io_rc(e, b);                                                         \
-    if (rc == MPI_SUCCESS) { vt_last_bytes = b; if (dt == MPI_BYTE) { if (is_write) img_write(off, buf, b); else img_read(off, (void *)buf, b); } } \
+    if (rc == MPI_SUCCESS) { vt_last_bytes = b; if (dt == MPI_BYTE) { if (is_write) img_write(off, buf, b); else { img_read(off, (void *)buf, b); \
+        if (vt_file && off >= 0) { long long av = vt_file_len - off; if (av < 0) av = 0; if (av < b) vt_last_bytes = av; } } } } /* short read at end of file */ \
     else vt_last_bytes = 0;                                                                                      \
     return rc;
 int MPI_File_write_at(MPI_File fh, MPI_Offset off, const void *buf, int count, MPI_Datatype dt, MPI_Status *st) { struct vt_event *e; long long b; int rc; IO_STUB(w, EV_WRITE_AT, 1, 1) }
